@@ -3,6 +3,26 @@ package main
 // Family wire (C11, basis of C05/C12): canonical encoding (bytes equal to the model's, independent of
 // map insertion order), decoding of canonical and of loosened (non-canonical but accepted) encodings,
 // re-encoding to the canonical bytes, unknown-type pass-through, token and nonce codecs.
+//
+// Blocks of famWire (each choice is counted in meta.json):
+//   per caveat     WireCav (narrow pools, shared with other families) and wideCav (zero id, case variants, ids that
+//                  are prefixes of each other, bytes >= 0x80, NFC/NFD, exact map sizes 15/16/17/40, app id 0 next to
+//                  others, nil / nil-slice / long / repetitive conditionals, negative and huge big.Int, array16
+//                  command / argument / mutation lists, unknown types at every registry and integer-format
+//                  boundary with non-minimal body headers, URL-shaped locations, odd binding lengths, zero values):
+//                  enc.cav (same object twice + every map rebuilt four times, all nine resource-set kinds, also
+//                  inside conditionals; an encoder error is an observable too), dec.cavs, then the loosened form
+//                  (struct as map, wire nil for zero integers / Go strings / bools, wider / signed integers,
+//                  str<->bin, longer headers, trailing bytes after the value): dec.cavs, reenc.cavs
+//   matrix         every type number 0..33 and five beyond x 17 small bodies, the type position, the container
+//                  (nil, empty, odd counts, every header width, map, scalars, empty input)
+//   sets / tokens  0..4 caveats (a quarter from the wide pools), 1023..1300 caveats; one pointer at two places, an
+//                  equal copy, one map object in three caveats; literal set vs NewCaveatSet; proofs: clone, encode,
+//                  then encode / clone / verify in any order; minted tokens with key-ids of 0..256 (65535/65536
+//                  in the thorough tier) and URL-shaped locations, loosened also inside the caveat list
+//   nonces         both formats; key-id 0..300, random part 0..32, tail 0..64 bytes
+//   nil fields     (const canon): values holding a nil map / nil []byte - outside the model's value space
+//   dupfield       (const canon): map-encoded tokens naming a field twice
 
 import (
 	"bytes"
@@ -306,6 +326,366 @@ func (r *Rng) rebuild(c macaroon.Caveat) macaroon.Caveat {
 	return c
 }
 
+// ---------------------------------------------------------------------------------------------
+// Widened pools (generator audit): used by famWire only.  WireCav / wStr / wStrSet / mpTree /
+// rebuild above are shared with other families (token, attack, hostile) and keep their streams.
+// ---------------------------------------------------------------------------------------------
+
+// wideKeys: resource ids and text fields the narrow pools never held: the zero id "", letter-case
+// variants, ids that are prefixes of each other, separators, leading/trailing blanks, NUL, bytes
+// >= 0x80 (a signed byte comparison sorts them first), composed vs decomposed accents, code points
+// whose UTF-16 order differs from their byte order, decimal look-alikes (9 < 10 < "09"), and the
+// length-header boundaries of str (31/32, 255/256).
+var wideKeys = []string{"", "a", "A", "ab", "aB", "Ab", "AB", "b", "B", "a/", "a/b", "a/b/", "/", " a", "a ", " ",
+	"a\x00", "a\x00b", "\x00", "\x7f", "\x80", "\xff", "\xc3\xa9", "e\xcc\x81", "\xc3\x89", "\xe2\x84\xaa", "k", "K",
+	"10", "9", "09", "0", "*", "zz", "Zz", "\xef\xbf\xbf", "\xf0\x90\x80\x80", "\xed\x9f\xbf",
+	strings.Repeat("k", 31), strings.Repeat("k", 32), strings.Repeat("k", 255), strings.Repeat("k", 256)}
+
+var wideIDs = []uint64{0, 1, 9, 10, 11, 99, 100, 127, 128, 255, 256, 1<<15 - 1, 1 << 15, 65535, 65536, 1<<31 - 1, 1 << 31,
+	1<<32 - 1, 1 << 32, 1<<53 + 1, 1<<63 - 1, 1 << 63, 1<<63 + 1, 1<<64 - 2, 1<<64 - 1}
+
+var wideLocs = []string{"", "https://auth.example", "https://auth.example/", "https://Auth.Example", "HTTPS://AUTH.EXAMPLE/",
+	"https://auth.example/path", "https://auth.example/path/", "https://auth.example:443", "https://auth.example/?q=1",
+	"https://auth.example#f", "https://user@auth.example", "https://[::1]:8443/", "//auth.example", "auth.example", " https://auth.example",
+	"https://\xc3\xa9.example", "https://xn--9ca.example", "https://auth.example\x00", "\xff\xfe"}
+
+func (r *Rng) wKey(o *Out, tier string) string {
+	if tier == "thorough" && r.Chance(1, 6000) {
+		o.count("wide.bigstring")
+		return strings.Repeat("K", pick(r, []int{65535, 65536})) // str16 / str32 header (rare: 130 KB per line)
+	}
+	return pick(r, wideKeys)
+}
+
+// wKeySet: ids straight from wideKeys (no distinguishing suffix: the zero id, case variants and prefixes
+// of each other meet in one map); sizes around the fixmap/map16 boundary
+func (r *Rng) wKeySet(o *Out, tier string) resset.ResourceSet[string, resset.Action] {
+	n := pick(r, []int{1, 2, 2, 3, 4, 8, 15, 16, 17, 40})
+	var m resset.ResourceSet[string, resset.Action]
+	if r.Bool() {
+		m = resset.ResourceSet[string, resset.Action]{}
+	} else {
+		m = make(resset.ResourceSet[string, resset.Action], pick(r, []int{0, 1, 64})) // capacity hint: another bucket layout
+	}
+	for tries := 0; len(m) < n && tries < 40*n; tries++ { // exactly n distinct ids (the pool holds 42)
+		m[r.wKey(o, tier)] = r.wMask()
+	}
+	if _, ok := m[""]; ok {
+		o.count("wide.keyset.zero-id")
+	}
+	if r.Chance(1, 4) {
+		// churn: entries inserted and deleted again leave the map's layout different, its content equal
+		for i := 0; i < 20; i++ {
+			k := fmt.Sprintf("churn%d", i)
+			m[k] = 1
+		}
+		for i := 0; i < 20; i++ {
+			delete(m, fmt.Sprintf("churn%d", i))
+		}
+		o.count("wide.keyset.churned")
+	}
+	o.count(fmt.Sprintf("wide.keyset.len%d", len(m)))
+	return m
+}
+
+const nWideKinds = 13
+
+// wideCav: caveat values of shapes and pools WireCav does not draw
+func (r *Rng) wideCav(o *Out, depth int, tier string) macaroon.Caveat {
+	k := r.Intn(nWideKinds)
+	switch k {
+	case 0, 1:
+		s := r.wKeySet(o, tier)
+		switch r.Intn(8) {
+		case 0:
+			return &flyio.Volumes{Volumes: s}
+		case 1:
+			return &flyio.Machines{Machines: s}
+		case 2:
+			return &flyio.FeatureSet{Features: s}
+		case 3:
+			return &flyio.MachineFeatureSet{Features: s}
+		case 4:
+			return &flyio.AppFeatureSet{Features: s}
+		case 5:
+			return &flyio.Clusters{Clusters: s}
+		default:
+			m := make(resset.ResourceSet[resset.Prefix, resset.Action])
+			for k, v := range s {
+				m[resset.Prefix(k)] = v
+			}
+			return &flyio.StorageObjects{Prefixes: m}
+		}
+	case 2:
+		// app ids without a distinguishing offset: the wildcard 0 next to others, decimal look-alikes, 2^63 and up
+		n := pick(r, []int{1, 2, 3, 4, 15, 16, 17, 25})
+		m := resset.ResourceSet[uint64, resset.Action]{}
+		for i := 0; i < n; i++ {
+			m[pick(r, wideIDs)] = r.wMask()
+		}
+		if _, ok := m[0]; ok && len(m) > 1 {
+			o.count("wide.apps.zero-with-others")
+		}
+		o.count("wide.apps")
+		return &flyio.Apps{Apps: m}
+	case 3:
+		// a conditional whose set pointer is nil / whose set holds a nil slice / a long or repetitive inner set
+		switch r.Intn(4) {
+		case 0:
+			o.count("wide.ifs.nilptr")
+			return &resset.IfPresent{Else: r.wMask()}
+		case 1:
+			o.count("wide.ifs.nilslice")
+			return &resset.IfPresent{Ifs: &macaroon.CaveatSet{}, Else: r.wMask()}
+		case 2:
+			n := pick(r, []int{7, 8, 9, 15, 16, 17})
+			cs := make([]macaroon.Caveat, n)
+			for i := range cs {
+				cs[i] = &flyio.IsUser{ID: pick(r, wideIDs)}
+			}
+			o.count("wide.ifs.long")
+			return &resset.IfPresent{Ifs: macaroon.NewCaveatSet(cs...), Else: r.wMask()}
+		default:
+			// the same inner caveat value twice (one pointer), and once more as an equal copy
+			var in macaroon.Caveat
+			if depth > 0 {
+				in = r.wideCav(o, depth-1, tier)
+			} else {
+				in = &flyio.FromMachine{ID: r.wKey(o, tier)}
+			}
+			cs := []macaroon.Caveat{in, in}
+			if b, err := encOne(in); err == nil {
+				if d, err := macaroon.DecodeCaveats(b); err == nil && len(d.Caveats) == 1 {
+					cs = append(cs, d.Caveats[0])
+				}
+			}
+			o.count("wide.ifs.repeated")
+			return &resset.IfPresent{Ifs: macaroon.NewCaveatSet(cs...), Else: r.wMask()}
+		}
+	case 4:
+		// big.Int values the narrow pool never built: negative (the wire carries the magnitude only), 2^64 and around
+		var z *big.Int
+		switch r.Intn(4) {
+		case 0:
+			z = new(big.Int).Neg(new(big.Int).SetBytes(r.Bytes(pick(r, []int{1, 8, 9}))))
+			o.count("wide.google.negative")
+		case 1:
+			z = new(big.Int).Lsh(big.NewInt(1), uint(pick(r, []int{7, 8, 63, 64, 65, 255, 256, 2047})))
+			if r.Bool() {
+				z.Sub(z, big.NewInt(1))
+			}
+			o.count("wide.google.pow2")
+		case 2:
+			z = new(big.Int).SetBytes(append([]byte{0, 0}, r.Bytes(3)...)) // leading zero bytes vanish
+			o.count("wide.google.leadingzero")
+		default:
+			z, _ = new(big.Int).SetString(pick(r, []string{"0", "-0", "100000000000000000000", "115792089237316195423570985008687907853269984665640564039457584007913129639935"}), 10)
+			o.count("wide.google.decimal")
+		}
+		u := auth.GoogleUserID(*z)
+		return &u
+	case 5:
+		// long command lists / long argument lists (array16 headers), repeated commands
+		switch r.Intn(3) {
+		case 0:
+			n := pick(r, []int{15, 16, 17})
+			cs := make(flyio.Commands, n)
+			for i := range cs {
+				cs[i] = flyio.Command{Args: []string{r.wKey(o, tier)}, Exact: r.Bool()}
+			}
+			o.count("wide.commands.long")
+			return &cs
+		case 1:
+			n := pick(r, []int{15, 16, 17})
+			args := make([]string, n)
+			for i := range args {
+				args[i] = r.wKey(o, tier)
+			}
+			cs := flyio.Commands{{Args: args, Exact: r.Bool()}}
+			o.count("wide.commands.longargs")
+			return &cs
+		default:
+			c := flyio.Command{Args: []string{r.wKey(o, tier), r.wKey(o, tier)}, Exact: r.Bool()}
+			cs := flyio.Commands{c, c, {Args: c.Args, Exact: !c.Exact}, c}
+			o.count("wide.commands.repeated")
+			return &cs
+		}
+	case 6:
+		// mutation lists: repeated elements, descending order, lengths around the array16 header
+		n := pick(r, []int{2, 3, 15, 16, 17})
+		ms := make([]string, n)
+		for i := range ms {
+			ms[i] = r.wKey(o, tier)
+		}
+		switch r.Intn(3) {
+		case 0:
+			ms[len(ms)-1] = ms[0]
+			o.count("wide.mutations.repeated")
+		case 1:
+			sortStrings(ms)
+			for i, j := 0, len(ms)-1; i < j; i, j = i+1, j-1 {
+				ms[i], ms[j] = ms[j], ms[i]
+			}
+			o.count("wide.mutations.descending")
+		default:
+			o.count("wide.mutations.long")
+		}
+		return &flyio.Mutations{Mutations: ms}
+	case 7:
+		// unknown types next to every boundary of the registry and of the integer formats; bodies with
+		// non-minimal headers everywhere (they must come back byte for byte)
+		typ := pick(r, []uint64{1, 17, 18, 32, 33, 100, 255, 256, 65535, 65536, 65536 + 255, 1<<17 - 1, 1 << 17, 1<<32 - 1, 1<<32 + 1, 1<<48 - 1, 1<<48 + 1, 1<<63 - 1, 1 << 63})
+		t := r.mpTree(3, false)
+		mpLoosenHeaders(r, t)
+		o.count("wide.unreg")
+		return &macaroon.UnregisteredCaveat{Type: macaroon.CaveatType(typ), RawMsgpack: mpEnc(t)}
+	case 8:
+		c := &macaroon.Caveat3P{Location: pick(r, wideLocs), VerifierKey: r.Bytes(pick(r, []int{11, 12, 13, 28, 59, 61})), Ticket: r.Bytes(pick(r, []int{12, 28, 29, 255, 256}))}
+		if tier == "thorough" && r.Chance(1, 400) {
+			c.Ticket = r.Bytes(pick(r, []int{65535, 65536})) // bin16 / bin32 header
+			o.count("wide.tp.bigticket")
+		}
+		o.count("wide.tp")
+		return c
+	case 9:
+		o.count("wide.textfield")
+		switch r.Intn(3) {
+		case 0:
+			return &flyio.FromMachine{ID: r.wKey(o, tier)}
+		case 1:
+			h := auth.ConfineGoogleHD(pick(r, []string{"example.com", "Example.com", "EXAMPLE.COM", "example.com.", " example.com", "ex\xc3\xa4mple.com", "xn--exmple-cua.com", "\xe2\x84\xaa.example", "k.example", ""}))
+			return &h
+		default:
+			return &flyio.FlySrc{Organization: r.wKey(o, tier), App: r.wKey(o, tier), Instance: r.wKey(o, tier)}
+		}
+	case 10:
+		b := macaroon.BindToParentToken(r.Bytes(pick(r, []int{15, 17, 31, 33, 255, 256})))
+		o.count("wide.bind")
+		return &b
+	case 11:
+		// windows that are empty, inverted, or a single instant
+		t := pick(r, []int64{0, 1, -1, baseNow, 1<<63 - 1, -1 << 63})
+		o.count("wide.window")
+		switch r.Intn(3) {
+		case 0:
+			return &macaroon.ValidityWindow{NotBefore: t, NotAfter: t}
+		case 1:
+			return &macaroon.ValidityWindow{NotBefore: t, NotAfter: t - 1}
+		default:
+			return &macaroon.ValidityWindow{}
+		}
+	default:
+		// zero values of every struct-bodied kind
+		o.count("wide.zero")
+		return pick(r, []macaroon.Caveat{&flyio.Organization{}, &auth.ConfineUser{}, &auth.ConfineOrganization{}, &flyio.IsUser{},
+			&flyio.FromMachine{}, &flyio.FlySrc{}, &flyio.IsMember{}, &flyio.Mutations{}, &macaroon.ValidityWindow{},
+			&flyio.Apps{Apps: resset.ResourceSet[uint64, resset.Action]{}}, &flyio.Volumes{Volumes: resset.ResourceSet[string, resset.Action]{}}})
+	}
+}
+
+// mpLoosenHeaders: non-minimal length headers and integer widths everywhere, kinds untouched (so a
+// str stays a str: map keys of a generic body stay hashable)
+func mpLoosenHeaders(r *Rng, n *mpNode) {
+	switch n.Kind {
+	case mpInt:
+		if n.Code == 0 && !n.Neg && r.Chance(1, 3) {
+			n.Code = 0xcf
+		}
+	case mpStr:
+		if r.Chance(1, 2) {
+			opts := []byte{0xdb, 0xda}
+			if len(n.S) < 256 {
+				opts = append(opts, 0xd9)
+			}
+			n.Code = pick(r, opts)
+		}
+	case mpBin:
+		if r.Chance(1, 2) {
+			n.Code = pick(r, []byte{0xc6, 0xc5})
+		}
+	case mpArr, mpMap:
+		if r.Chance(1, 2) {
+			if n.Kind == mpArr {
+				n.Code = pick(r, []byte{0xdc, 0xdd})
+			} else {
+				n.Code = pick(r, []byte{0xde, 0xdf})
+			}
+		}
+		for _, k := range n.Kids {
+			mpLoosenHeaders(r, k)
+		}
+	}
+}
+
+// mpNilZero: the decoder reads wire nil as the zero value of an integer, a Go string, a bool (str nodes
+// of a CANONICAL tree are Go strings; []byte fields are bin and are left alone: a nil []byte is outside
+// the modelled domain).  Returns how many nodes were rewritten.
+func mpNilZero(r *Rng, n *mpNode) int {
+	hits := 0
+	switch n.Kind {
+	case mpArr, mpMap:
+		for i, k := range n.Kids {
+			zero := (k.Kind == mpInt && !k.Neg && k.U == 0) || (k.Kind == mpStr && len(k.S) == 0) || (k.Kind == mpBool && !k.B)
+			if zero && r.Chance(1, 2) {
+				n.Kids[i] = &mpNode{Kind: mpNil}
+				hits++
+				continue
+			}
+			hits += mpNilZero(r, k)
+		}
+	}
+	return hits
+}
+
+// rebuildDeep: the same caveat value with EVERY map (all nine resource-set kinds, also inside
+// conditionals) built afresh in a random insertion order, with a random capacity hint
+func (r *Rng) rebuildDeep(c macaroon.Caveat) macaroon.Caveat {
+	switch v := c.(type) {
+	case *flyio.Apps:
+		return &flyio.Apps{Apps: jShuf(r, v.Apps)}
+	case *flyio.Volumes:
+		return &flyio.Volumes{Volumes: jShuf(r, v.Volumes)}
+	case *flyio.Machines:
+		return &flyio.Machines{Machines: jShuf(r, v.Machines)}
+	case *flyio.FeatureSet:
+		return &flyio.FeatureSet{Features: jShuf(r, v.Features)}
+	case *flyio.MachineFeatureSet:
+		return &flyio.MachineFeatureSet{Features: jShuf(r, v.Features)}
+	case *flyio.AppFeatureSet:
+		return &flyio.AppFeatureSet{Features: jShuf(r, v.Features)}
+	case *flyio.Clusters:
+		return &flyio.Clusters{Clusters: jShuf(r, v.Clusters)}
+	case *flyio.StorageObjects:
+		return &flyio.StorageObjects{Prefixes: jShuf(r, v.Prefixes)}
+	case *resset.IfPresent:
+		if v.Ifs == nil {
+			return c
+		}
+		cs := make([]macaroon.Caveat, len(v.Ifs.Caveats))
+		for i, x := range v.Ifs.Caveats {
+			cs[i] = r.rebuildDeep(x)
+		}
+		return &resset.IfPresent{Ifs: &macaroon.CaveatSet{Caveats: cs}, Else: v.Else}
+	}
+	return c
+}
+
+func hasMap(c macaroon.Caveat) bool {
+	switch v := c.(type) {
+	case *flyio.Apps, *flyio.Volumes, *flyio.Machines, *flyio.FeatureSet, *flyio.MachineFeatureSet, *flyio.AppFeatureSet, *flyio.Clusters, *flyio.StorageObjects:
+		return true
+	case *resset.IfPresent:
+		if v.Ifs != nil {
+			for _, x := range v.Ifs.Caveats {
+				if hasMap(x) {
+					return true
+				}
+			}
+		}
+	}
+	return false
+}
+
 func encOne(c macaroon.Caveat) ([]byte, error) { return macaroon.NewCaveatSet(c).MarshalMsgpack() }
 
 func decCavsObs(b []byte) string {
@@ -393,26 +773,62 @@ func decMacObs(b []byte) string {
 	})
 }
 
+func reencMacObs(b []byte) string {
+	return guard(func() string {
+		mm, err := macaroon.Decode(b)
+		if err != nil {
+			return "err"
+		}
+		out, err := mm.Encode()
+		if err != nil {
+			return "err-encode"
+		}
+		return "ok " + hexb(out)
+	})
+}
+
+// wTrailing: bytes after the first MessagePack value (the decoder reads one value and stops)
+func (r *Rng) wTrailing(own []byte) []byte {
+	switch r.Intn(4) {
+	case 0:
+		return []byte{0xc1} // the one code MessagePack never uses
+	case 1:
+		return append([]byte{}, own...) // a second copy of the value itself
+	case 2:
+		return []byte{0x91} // an array header announcing an element that never comes
+	default:
+		return r.Bytes(1 + r.Intn(4))
+	}
+}
+
 func famWire(r *Rng, o *Out, tier string) {
 	n := 2500
 	if tier == "thorough" {
 		n = 60000
 	}
-	for i := 0; i < n; i++ {
-		c := r.WireCav(3)
+	oneCav := func(c macaroon.Caveat) {
 		o.count(fmt.Sprintf("cav.%T", c))
 		b, err := encOne(c)
 		if err != nil {
+			// (the model knows which values cannot be written: an encoder that starts refusing a legal value shows here)
 			o.count("enc.err")
-			continue
+			o.emit("(enc.cav "+sxCav(c)+")", "err-encode")
+			return
 		}
-		// determinism: re-encode from maps rebuilt in fresh insertion orders
+		// determinism: the same object encoded again, then re-encoded from maps (every resource-set kind, also
+		// inside conditionals) rebuilt in fresh insertion orders and with other capacity hints
 		det := "x" + hex.EncodeToString(b)
+		if b2, _ := encOne(c); string(b2) != string(b) {
+			det = "nondeterministic"
+		}
 		for k := 0; k < 4; k++ {
-			b2, _ := encOne(r.rebuild(c))
+			b2, _ := encOne(r.rebuildDeep(c))
 			if string(b2) != string(b) {
 				det = "nondeterministic"
 			}
+		}
+		if hasMap(c) {
+			o.count("det.with-maps")
 		}
 		o.emit("(enc.cav "+sxCav(c)+")", det)
 		o.emit("(dec.cavs "+hexb(b)+")", decCavsObs(b))
@@ -420,11 +836,18 @@ func famWire(r *Rng, o *Out, tier string) {
 		tree, rest, perr := mpParse(b)
 		if perr != nil || len(rest) != 0 {
 			o.count("mpparse.fail")
-			continue
+			return
 		}
 		if r.Chance(1, 3) && len(tree.Kids) == 2 {
 			tree.Kids[1] = structToMap(r, c, tree.Kids[1])
 			o.count("loosen.structmap")
+		}
+		// wire nil for the zero value of integers, Go strings and bools (decided on the canonical tree, where
+		// str nodes are Go strings and []byte fields are bin)
+		if r.Chance(1, 4) {
+			if h := mpNilZero(r, tree); h > 0 {
+				o.count("loosen.nilzero")
+			}
 		}
 		if _, isUnreg := c.(*macaroon.UnregisteredCaveat); isUnreg {
 			mpLoosen(r, tree.Kids[0]) // only the type number: the body passes through verbatim
@@ -435,9 +858,70 @@ func famWire(r *Rng, o *Out, tier string) {
 		if string(nb) != string(b) {
 			o.count("loosen.changed")
 		}
+		if r.Chance(1, 6) {
+			nb = append(nb, r.wTrailing(b)...)
+			o.count("loosen.trailing")
+		}
 		o.emit("(dec.cavs "+hexb(nb)+")", decCavsObs(nb))
 		o.emit("(reenc.cavs "+hexb(nb)+")", reencObs(nb))
 	}
+	for i := 0; i < n; i++ {
+		oneCav(r.WireCav(3))
+	}
+	// values of the widened pools (about a third as many again)
+	for i := 0; i < n/3; i++ {
+		oneCav(r.wideCav(o, 2, tier))
+	}
+
+	// every type number x small body shapes, the type position and the container itself: what the decoder
+	// accepts for zero values (nil, empty array, empty map for a struct; nil for a scalar), what it refuses
+	// (odd containers, wrong field counts), and that whatever it accepts re-encodes as the model says.
+	// A decoded value holding a nil map / nil []byte re-encodes as nil where the model writes an empty
+	// map / bin (DESIGN 9.2: outside the modelled domain): its value line is compared, its re-encoding is not.
+	{
+		bodies := [][]byte{{0xc0}, {0x90}, {0x80}, {0x00}, {0xa0}, {0xc4, 0x00}, {0xc2}, {0x91, 0xc0}, {0x91, 0x00}, {0x92, 0xc0, 0xc0},
+			{0x92, 0x90, 0x00}, {0x93, 0x00, 0x00, 0x00}, {0x81, 0xa0, 0xc0}, {0x81, 0xa2, 'I', 'D', 0x07}, {0xcc, 0x07}, {0xd0, 0xff}, {0xa1, 'r'}}
+		types := []uint64{}
+		for t := uint64(0); t <= 33; t++ {
+			types = append(types, t)
+		}
+		types = append(types, 255, 256, 65536, 1<<32, 1<<64-1)
+		cell := func(tag string, b []byte) {
+			o.count("matrix." + tag)
+			o.emit("(dec.cavs "+hexb(b)+")", decCavsObs(b))
+			skip := false
+			func() {
+				defer func() { _ = recover() }()
+				if cs, err := macaroon.DecodeCaveats(b); err == nil && cavsHaveNil(cs.Caveats) {
+					skip = true
+				}
+			}()
+			if skip {
+				o.count("matrix.reenc-skipped.nil-field")
+				return
+			}
+			o.emit("(reenc.cavs "+hexb(b)+")", reencObs(b))
+		}
+		for _, t := range types {
+			tn := mpEnc(&mpNode{Kind: mpInt, U: t, I: int64(t)})
+			for _, body := range bodies {
+				b := append(append([]byte{0x92}, tn...), body...)
+				cell("type-x-body", b)
+			}
+		}
+		// the type-number position
+		for _, tn := range [][]byte{{0xc0}, {0xc2}, {0xa0}, {0xa1, '4'}, {0x90}, {0xd0, 0x04}, {0xd3, 0xff, 0xff, 0xff, 0xff, 0xff, 0xff, 0xff, 0xff}, {0xff}, {0xca, 0, 0, 0, 0}} {
+			cell("type-position", append(append([]byte{0x92}, tn...), 0x92, 0x01, 0x1f))
+		}
+		// the container: nil, empty, odd counts, every header width, a map, scalars
+		pair := []byte{0x1a, 0x1f} // Action(31)
+		for _, top := range [][]byte{{0xc0}, {0x90}, {0x91, 0x1a}, append([]byte{0x93}, append(append([]byte{}, pair...), 0x1a)...), {0x80}, {0xa0}, {0x00}, {0xc2},
+			append([]byte{0xdc, 0x00, 0x02}, pair...), append([]byte{0xdd, 0x00, 0x00, 0x00, 0x02}, pair...), {0xdc, 0x00, 0x00}, {0xdd, 0, 0, 0, 0},
+			append([]byte{0xdc, 0x00, 0x03}, append(append([]byte{}, pair...), 0x1a)...), append([]byte{0x82}, append(append([]byte{}, pair...), pair...)...), {0x92, 0x1a}, {}} {
+			cell("container", top)
+		}
+	}
+
 	// whole caveat sets and tokens
 	for i := 0; i < n/5; i++ {
 		m := r.Intn(5)
@@ -451,21 +935,75 @@ func famWire(r *Rng, o *Out, tier string) {
 				cs[j] = &macaroon.ValidityWindow{NotBefore: int64(j), NotAfter: int64(j) + 5}
 				continue
 			}
-			cs[j] = r.WireCav(2)
+			if r.Chance(1, 4) {
+				cs[j] = r.wideCav(o, 1, tier)
+			} else {
+				cs[j] = r.WireCav(2)
+			}
+		}
+		if m <= 100 {
+			// repeated elements and shared parts: one caveat value (one pointer) at two places of the set, an
+			// equal copy of an element, two caveats holding ONE map object
+			switch r.Intn(8) {
+			case 0:
+				if m > 0 {
+					j := r.Intn(m)
+					at := r.Intn(m + 1)
+					cs = append(cs[:at], append([]macaroon.Caveat{cs[j]}, cs[at:]...)...)
+					o.count("cavs.same-pointer-twice")
+					if at == j || at == j+1 {
+						o.count("cavs.same-pointer-adjacent")
+					}
+				}
+			case 1:
+				if m > 0 {
+					j := r.Intn(m)
+					if b, err := encOne(cs[j]); err == nil {
+						if d, err := macaroon.DecodeCaveats(b); err == nil && len(d.Caveats) == 1 {
+							cs = append(cs, d.Caveats[0])
+							o.count("cavs.equal-copy")
+						}
+					}
+				}
+			case 2:
+				sh := r.wKeySet(o, tier)
+				cs = append(cs, &flyio.Volumes{Volumes: sh}, &flyio.Machines{Machines: sh}, &flyio.Volumes{Volumes: sh})
+				o.count("cavs.shared-map")
+			}
 		}
 		b, err := macaroon.NewCaveatSet(cs...).MarshalMsgpack()
 		if err != nil {
+			o.count("enc.err")
+			o.emit("(enc.cavs "+sxCavs(cs)+")", "err-encode")
 			continue
 		}
 		o.emit("(enc.cavs "+sxCavs(cs)+")", hexb(b))
 		o.emit("(dec.cavs "+hexb(b)+")", decCavsObs(b))
+		// the set literal (slice not copied by NewCaveatSet) and the set by value encode to the same bytes
+		if i%4 == 1 {
+			lit := macaroon.CaveatSet{Caveats: cs}
+			res := "same"
+			if b2, err := lit.MarshalMsgpack(); err != nil || !bytes.Equal(b2, b) {
+				res = "literal-set-encodes-differently"
+			}
+			if b3, err := (&lit).MarshalMsgpack(); err != nil || !bytes.Equal(b3, b) {
+				res = "pointer-set-encodes-differently"
+			}
+			o.count("cavs.literal")
+			o.emit("(const same)", res)
+		}
 		// "encoding a token is deterministic": a freshly issued proof and a clone of it taken before its first
-		// encoding are the same token and encode to the same bytes, which verify (every sixth round)
+		// encoding are the same token and encode to the same bytes, which verify (every sixth round); encoding
+		// again gives the same bytes again, and the verifier recomputes the holder's signature
 		if i%6 == 0 {
 			ka := r.Bytes(32)
-			if c3, err := macaroon.NewCaveat3P(ka, "https://wire.example"); err == nil {
+			ploc := "https://wire.example"
+			if i%12 == 6 {
+				ploc = pick(r, wideLocs)
+			}
+			if c3, err := macaroon.NewCaveat3P(ka, ploc); err == nil {
 				if rn, ok := ticketKey(ka, c3.Ticket); ok {
-					if _, dm, err := macaroon.DischargeTicket(ka, "https://wire.example", c3.Ticket); err == nil {
+					if _, dm, err := macaroon.DischargeTicket(ka, ploc, c3.Ticket); err == nil {
 						var ops, outs []string
 						for k, kk := 0, r.Intn(4); k < kk; k++ {
 							c := r.plainCav(2) // (values that survive a hop: Clone is an encode and a decode)
@@ -476,29 +1014,58 @@ func famWire(r *Rng, o *Out, tier string) {
 								outs = append(outs, "add:ok")
 							}
 						}
-						ops = append(ops, "clone")
-						if cl, err := dm.Clone(); err != nil {
-							outs = append(outs, "clone:err")
-						} else if cb, err := cl.Encode(); err != nil {
-							outs = append(outs, "clone:err")
-						} else {
-							outs = append(outs, "clone:"+hx(cb))
+						step := func(op string) {
+							ops = append(ops, op)
+							switch op {
+							case "clone":
+								if cl, err := dm.Clone(); err != nil {
+									outs = append(outs, "clone:err")
+								} else if cb, err := cl.Encode(); err != nil {
+									outs = append(outs, "clone:err")
+								} else {
+									outs = append(outs, "clone:"+hx(cb))
+								}
+							case "encode":
+								if eb, err := dm.Encode(); err != nil {
+									outs = append(outs, "enc:err")
+								} else {
+									outs = append(outs, "enc:"+hx(eb))
+								}
+							case "verify":
+								if vcs, err := dm.VerifyParsed(rn, nil, nil); err != nil {
+									outs = append(outs, "verify:"+verifyClass(err))
+								} else {
+									outs = append(outs, "verify:ok"+sxCavs(vcs.Caveats))
+								}
+							}
 						}
-						ops = append(ops, "encode")
-						if eb, err := dm.Encode(); err != nil {
-							outs = append(outs, "enc:err")
-						} else {
-							outs = append(outs, "enc:"+hx(eb))
-						}
+						step("clone")
+						step("encode")
 						o.count("proof.cloneThenEncode")
-						o.emit(fmt.Sprintf("(proof.run %s %s %s %s %s (%s))", hx(ka), hs("https://wire.example"), hx(c3.Ticket), hx(dm.Nonce.Rnd), hx(rn), strings.Join(ops, " ")), strings.Join(outs, " "))
+						// then, in any order: encode again, clone again, verify
+						for k, kk := 0, r.Intn(4); k < kk; k++ {
+							op := pick(r, []string{"encode", "clone", "verify"})
+							o.count("proof.then." + op)
+							step(op)
+						}
+						o.emit(fmt.Sprintf("(proof.run %s %s %s %s %s (%s))", hx(ka), hs(ploc), hx(c3.Ticket), hx(dm.Nonce.Rnd), hx(rn), strings.Join(ops, " ")), strings.Join(outs, " "))
 					}
 				}
 			}
 		}
 		// a token carrying them, minted by the library (attestations are refused on non-proofs: skip those)
 		key := macaroon.NewSigningKey()
-		tok, err := macaroon.New(r.Bytes(pick(r, []int{0, 1, 16, 40})), r.wStr(), key)
+		kidLen := pick(r, []int{0, 1, 16, 40, 255, 256})
+		if tier == "thorough" && r.Chance(1, 1500) {
+			kidLen = pick(r, []int{65535, 65536})
+		}
+		o.count(fmt.Sprintf("token.kid%d", kidLen))
+		tloc := r.wStr()
+		if r.Chance(1, 4) {
+			tloc = pick(r, wideLocs)
+			o.count("token.wideloc")
+		}
+		tok, err := macaroon.New(r.Bytes(kidLen), tloc, key)
 		if err != nil {
 			continue
 		}
@@ -518,55 +1085,69 @@ func famWire(r *Rng, o *Out, tier string) {
 		}
 		o.count("token")
 		o.emit("(dec.mac "+hexb(tb)+")", decMacObs(tb))
-		o.emit("(reenc.mac "+hexb(tb)+")", guard(func() string {
-			mm, err := macaroon.Decode(tb)
-			if err != nil {
-				return "err"
-			}
-			out, err := mm.Encode()
-			if err != nil {
-				return "err-encode"
-			}
-			return "ok " + hexb(out)
-		}))
+		o.emit("(reenc.mac "+hexb(tb)+")", reencMacObs(tb))
 		tree, _, perr := mpParse(tb)
 		if perr == nil {
+			if r.Chance(1, 4) {
+				// wire nil for zero values outside the caveat list (empty location, false proof flag)
+				if h := mpNilZero(r, &mpNode{Kind: mpArr, Kids: []*mpNode{tree.Kids[0]}}); h > 0 {
+					o.count("token.nilzero.proof")
+				}
+				if len(tree.Kids[1].S) == 0 && tree.Kids[1].Kind == mpStr && r.Bool() {
+					tree.Kids[1] = &mpNode{Kind: mpNil}
+					o.count("token.nilzero.location")
+				}
+			}
 			mpLoosen(r, tree.Kids[0])
 			mpLoosen(r, tree.Kids[1])
 			mpLoosen(r, tree.Kids[3])
+			if r.Bool() {
+				// the caveat list too: nil for zero values first (decided on the canonical tree), then widths and kinds
+				if r.Chance(1, 3) {
+					if h := mpNilZero(r, tree.Kids[2]); h > 0 {
+						o.count("token.nilzero.cavs")
+					}
+				}
+				mpLoosen(r, tree.Kids[2])
+				o.count("token.loosen-cavs")
+			}
 			if r.Chance(1, 3) {
 				m := &mpNode{Kind: mpMap, Kids: []*mpNode{mpStrNode("Tail"), tree.Kids[3], mpStrNode("Nonce"), tree.Kids[0],
 					mpStrNode("junk"), {Kind: mpNil}, mpStrNode("UnsafeCaveats"), tree.Kids[2], mpStrNode("Location"), tree.Kids[1]}}
 				tree = m
 			}
 			nb := mpEnc(tree)
+			if r.Chance(1, 6) {
+				nb = append(nb, r.wTrailing(tb)...)
+				o.count("token.trailing")
+			}
 			o.emit("(dec.mac "+hexb(nb)+")", decMacObs(nb))
-			o.emit("(reenc.mac "+hexb(nb)+")", guard(func() string {
-				mm, err := macaroon.Decode(nb)
-				if err != nil {
-					return "err"
-				}
-				out, err := mm.Encode()
-				if err != nil {
-					return "err-encode"
-				}
-				return "ok " + hexb(out)
-			}))
+			o.emit("(reenc.mac "+hexb(nb)+")", reencMacObs(nb))
 		}
 	}
-	// nonces: both versions
-	for i := 0; i < 200; i++ {
-		kid, rnd := r.Bytes(pick(r, []int{0, 1, 16, 300})), r.Bytes(pick(r, []int{0, 16}))
-		var raw []byte
+	// nonces: both versions; key-ids, random parts and tails of other lengths than the library mints
+	for i := 0; i < 300; i++ {
+		kl, rl, tl := pick(r, []int{0, 1, 16, 255, 256, 300}), pick(r, []int{0, 16, 16, 15, 17, 32}), pick(r, []int{32, 32, 0, 1, 31, 33, 64})
+		o.count(fmt.Sprintf("nonce.kid%d", kl))
+		o.count(fmt.Sprintf("nonce.rnd%d", rl))
+		o.count(fmt.Sprintf("nonce.tail%d", tl))
+		kid, rnd := r.Bytes(kl), r.Bytes(rl)
+		var nt *mpNode
 		if r.Bool() {
-			raw = mpEnc(&mpNode{Kind: mpArr, Kids: []*mpNode{{Kind: mpBin, S: kid}, {Kind: mpBin, S: rnd}}})
+			nt = &mpNode{Kind: mpArr, Kids: []*mpNode{{Kind: mpBin, S: kid}, {Kind: mpBin, S: rnd}}}
 		} else {
-			raw = mpEnc(&mpNode{Kind: mpArr, Kids: []*mpNode{{Kind: mpBin, S: kid}, {Kind: mpBin, S: rnd}, {Kind: mpBool, B: r.Bool()}}})
+			nt = &mpNode{Kind: mpArr, Kids: []*mpNode{{Kind: mpBin, S: kid}, {Kind: mpBin, S: rnd}, {Kind: mpBool, B: r.Bool()}}}
 		}
+		if r.Chance(1, 3) {
+			mpNilZero(r, nt)
+			mpLoosen(r, nt)
+			o.count("nonce.loosened")
+		}
+		raw := mpEnc(nt)
 		tokb := append([]byte{0x94}, raw...)
-		tokb = append(tokb, mpEnc(mpStrNode("loc"))...)
+		tokb = append(tokb, mpEnc(mpStrNode(pick(r, []string{"loc", "loc", "", "LOC", "loc/"})))...)
 		tokb = append(tokb, 0x90)
-		tokb = append(tokb, mpEnc(&mpNode{Kind: mpBin, S: r.Bytes(32)})...)
+		tokb = append(tokb, mpEnc(&mpNode{Kind: mpBin, S: r.Bytes(tl)})...)
 		o.count("nonce")
 		o.emit("(dec.mac "+hexb(tokb)+")", decMacObs(tokb))
 		o.emit("(reenc.mac "+hexb(tokb)+")", guard(func() string {
@@ -578,6 +1159,7 @@ func famWire(r *Rng, o *Out, tier string) {
 			return "ok " + hexb(out)
 		}))
 	}
+	wireNilFields(r, o, tier, n/12)
 	// accepted non-canonical TOKENS, judged without the model (struct fields named twice are outside its wire
 	// domain): a token written as a map, with one field given twice (another value first or last). Whatever the
 	// decoder makes of it, the decoded token is a fixed point of encode/decode - same nonce (key-id, random part,
@@ -624,6 +1206,7 @@ func famWire(r *Rng, o *Out, tier string) {
 			field string
 			node  *mpNode
 		}
+		other, _, _ := mpParse([]byte{0x92, 0x1a, 0x01}) // [Action(read)]
 		alts := []alt{
 			{"Nonce", &mpNode{Kind: mpArr, Kids: []*mpNode{kidN, rndN, {Kind: mpBool, B: true}}}},
 			{"Nonce", &mpNode{Kind: mpArr, Kids: []*mpNode{kidN, rndN, {Kind: mpBool, B: false}}}},
@@ -632,6 +1215,8 @@ func famWire(r *Rng, o *Out, tier string) {
 			{"Tail", &mpNode{Kind: mpBin, S: r.Bytes(32)}},
 			{"Tail", &mpNode{Kind: mpBin, S: finalizeSig(m.Tail)}},
 			{"UnsafeCaveats", &mpNode{Kind: mpArr}},
+			{"UnsafeCaveats", other}, // (a second, non-empty list: the decoder appends to the first)
+			{"UnsafeCaveats", ct},    // (the token's own list once more)
 		}
 		a := pick(r, alts)
 		first := r.Bool()
@@ -688,4 +1273,135 @@ func famWire(r *Rng, o *Out, tier string) {
 		o.emit("(const canon)", res)
 	}
 	_ = strings.Join
+}
+
+// wireNilFields: caveat values holding a nil map or a nil []byte (legal Go values: `&flyio.Volumes{}`, the
+// caveat NewCaveat3P returns before Add sealed its key, a zero BindToParentToken).  The library writes wire
+// nil for them, the model's value space has no nil map / nil byte string (DESIGN 9.2), so they are judged
+// without the model: the encoding is the same every time, decoding and re-encoding reproduces it byte for
+// byte, the value that comes back prints like the one that went in and is again a fixed point; and a token
+// that carries the value verifies under its key, returning caveats whose encoding is the one that was signed.
+func wireNilFields(r *Rng, o *Out, tier string, rounds int) {
+	nilVal := func() (macaroon.Caveat, string) {
+		switch r.Intn(12) {
+		case 0:
+			return &flyio.Apps{}, "apps"
+		case 1:
+			return &flyio.Volumes{}, "volumes"
+		case 2:
+			return &flyio.Machines{}, "machines"
+		case 3:
+			return &flyio.FeatureSet{}, "featureSet"
+		case 4:
+			return &flyio.MachineFeatureSet{}, "machineFeatureSet"
+		case 5:
+			return &flyio.AppFeatureSet{}, "appFeatureSet"
+		case 6:
+			return &flyio.Clusters{}, "clusters"
+		case 7:
+			return &flyio.StorageObjects{}, "storageObjects"
+		case 8:
+			var b macaroon.BindToParentToken
+			return &b, "bind"
+		case 9:
+			return &macaroon.Caveat3P{Location: pick(r, wideLocs), Ticket: r.Bytes(40)}, "tp.nil-verifierkey"
+		case 10:
+			return &macaroon.Caveat3P{Location: pick(r, wideLocs), VerifierKey: r.Bytes(60)}, "tp.nil-ticket"
+		default:
+			return &macaroon.Caveat3P{}, "tp.zero"
+		}
+	}
+	for i := 0; i < rounds; i++ {
+		c, tag := nilVal()
+		cs := []macaroon.Caveat{c}
+		switch r.Intn(4) {
+		case 0:
+			cs = []macaroon.Caveat{&resset.IfPresent{Ifs: macaroon.NewCaveatSet(c, r.plainCav(0)), Else: r.wMask()}}
+			tag += ".wrapped"
+		case 1:
+			c2, _ := nilVal()
+			cs = []macaroon.Caveat{r.plainCav(1), c, c2}
+			tag += ".in-set"
+		}
+		o.count("nilfield." + tag)
+		res := guard(func() string {
+			set := macaroon.NewCaveatSet(cs...)
+			b1, err := set.MarshalMsgpack()
+			if err != nil {
+				return "canon" // (an unencodable neighbour: nothing to compare)
+			}
+			if b2, err := set.MarshalMsgpack(); err != nil || !bytes.Equal(b1, b2) {
+				return "encoding-changes-between-calls"
+			}
+			d1, err := macaroon.DecodeCaveats(b1)
+			if err != nil {
+				return "own-encoding-refused"
+			}
+			if sxCavs(d1.Caveats) != sxCavs(cs) {
+				return "value-changed:" + sxCavs(cs) + ":" + sxCavs(d1.Caveats)
+			}
+			e1, err := d1.MarshalMsgpack()
+			if err != nil {
+				return "decoded-value-does-not-encode"
+			}
+			if !bytes.Equal(e1, b1) {
+				return "re-encoding-differs:" + hexb(b1) + ":" + hexb(e1)
+			}
+			d2, err := macaroon.DecodeCaveats(e1)
+			if err != nil || sxCavs(d2.Caveats) != sxCavs(d1.Caveats) {
+				return "no-fixed-point"
+			}
+			// carried by a token (third-party caveats need their keys: Add would re-seal them; they are hand-
+			// chained instead, as a holder working from bytes would)
+			key := r.Bytes(32)
+			tok, err := macaroon.New([]byte("kid"), "https://wire.example", key)
+			if err != nil {
+				return "canon"
+			}
+			for _, x := range cs {
+				xb, err := encOne(x)
+				if err != nil {
+					return "canon"
+				}
+				tok.UnsafeCaveats.Caveats = append(tok.UnsafeCaveats.Caveats, x)
+				tok.Tail = hmacSum(tok.Tail, xb)
+			}
+			tb, err := tok.Encode()
+			if err != nil {
+				return "token-does-not-encode"
+			}
+			t2, err := macaroon.Decode(tb)
+			if err != nil {
+				return "own-token-refused"
+			}
+			tb2, err := t2.Encode()
+			if err != nil || !bytes.Equal(tb, tb2) {
+				return "token-re-encoding-differs"
+			}
+			if !has3POrBind(cs) {
+				// (verification looks for a discharge per third-party caveat and checks top-level bindings
+				// against the parent: such tokens are not meant to verify on their own)
+				vcs, err := t2.Verify(key, nil, nil)
+				if err != nil {
+					return "signed-token-does-not-verify:" + verifyClass(err)
+				}
+				vb, err := vcs.MarshalMsgpack()
+				if err != nil || !bytes.Equal(vb, b1) {
+					return "cleared-caveats-are-not-the-signed-ones"
+				}
+			}
+			return "canon"
+		})
+		o.emit("(const canon)", res)
+	}
+}
+
+func has3POrBind(cs []macaroon.Caveat) bool {
+	for _, c := range cs {
+		switch c.(type) {
+		case *macaroon.Caveat3P, *macaroon.BindToParentToken:
+			return true
+		}
+	}
+	return false
 }
